@@ -7,7 +7,7 @@ import common
 def main():
     chk = common.Check('C14')
     import fmtcheck_common as C
-    proved = chk.prove('I18n.Props.C14', generated=('cfmt', 'pyfmt', 'tagsites', 'intexpr', 'grammar', 'fmtcheck', 'fmtargs'), extra_targets=())
+    proved = chk.prove('I18n.Props.C14', generated=('cfmt', 'pyfmt', 'tagsites', 'intexpr', 'grammar', 'fmtcheck', 'fmtargs', 'fmtmsg'), extra_targets=())
     # the tie: check_args x4 + get_last_integer_conversion regenerated from the current source and proved equal to the model (Props/C14Tie.lean)
     tie_ok = common.prove_tie(chk, 'I18n.Props.C14Tie', ('fmtargs',),
                               'the check_args / get_last_integer_conversion regenerated from the current lib/check/msgformat/*.py and lib/strformat/c.py are no '
@@ -15,6 +15,10 @@ def main():
     problems = ' '.join(chk.lean.problems)
     driver_ok = os.path.exists(common.driver_path()) and not any('untranslatable' in s for s in chk.lean.translation.values()) \
         and 'Driver' not in problems and 'I18n.Model' not in problems and 'I18n.Spec' not in problems
+    # second part of the tie: check_message itself regenerated from lib/check/msgformat/__init__.py and proved equal to checkMessage (Props/C14MsgTie.lean)
+    msg_tie_ok = common.prove_tie(chk, 'I18n.Props.C14MsgTie', ('fmtmsg',),
+                                  'check_message regenerated from the current lib/check/msgformat/__init__.py is no longer proved equal to FmtCheck.checkMessage '
+                                  '(generated_check_message_eq_model, generated_msg_check_formats_eq_model and their corollaries)') and tie_ok
     C.H.ready()
     rng = chk.rng
     boost = 3 if chk.broken else 1
@@ -70,6 +74,10 @@ def main():
             chk.stream('fmtcheck-unit-generated', g(lines), outs)
             chk.stream('fmtcheck-unit-strings-generated', g(slines), souts)
             chk.stream('fmtcheck-lastint-generated', g(ll), lo)
+        if msg_tie_ok:      # … and through the regenerated check_message over the regenerated check_args (driver ops mrun / mruns)
+            gm = lambda ls: [l.replace('fmtcheck runs ', 'fmtcheck mruns ', 1).replace('fmtcheck run ', 'fmtcheck mrun ', 1) for l in ls]
+            chk.stream('fmtcheck-unit-generated-msg', gm(lines), outs)
+            chk.stream('fmtcheck-unit-strings-generated-msg', gm(slines), souts)
     else:
         chk.broken.append({'kind': 'correspondence', 'stream': 'fmtcheck-*', 'problem': 'driver could not be rebuilt from the regenerated model'})
     chk.note_cases({(c['primary'], c['msgid']['text'], c['msgstr']['text'], tuple(sorted((i, s['text']) for i, s in c['msgstr_plural'].items())))
@@ -100,6 +108,8 @@ def main():
             chk.stream('fmtcheck-e2e-strings', slines, souts)
             if tie_ok:
                 chk.stream('fmtcheck-e2e-generated', g(lines), outs)
+            if msg_tie_ok:
+                chk.stream('fmtcheck-e2e-generated-msg', gm(lines), outs)
     finally:
         shutil.rmtree(work, ignore_errors=True)
 
@@ -139,7 +149,8 @@ def main():
                  'translators cfmt2lean / pyfmt2lean (type tables), tagsites2lean (tag call inventory), intexpr2lean / grammar2lean (plural evaluators), fmtcheck2lean (probes of check_args and get_last_integer_conversion, re-computed by the model in the kernel)',
                  'the comparators check_args x4 and get_last_integer_conversion are tied by translation + proof: tools/translate/fmtargs2lean.py (over tools/translate/pytr; rules and '
                  'representation conventions in its docstring and DESIGN-notes/fmtcheck.md) and the kit lean/I18n/PyKit.lean are trusted; the regenerated definitions are PROVED equal to the model '
-                 '(Props/C14Tie.lean) and are exercised against CPython by the *-generated streams; check_message, check_string, check_msgids and the dispatch are hand-written: tied by the fmtcheck-* streams',
+                 '(Props/C14Tie.lean) and are exercised against CPython by the *-generated streams; check_message is tied the same way (tools/translate/fmtmsg2lean.py, Props/C14MsgTie.lean, *-generated-msg streams); '
+                 'check_string, check_msgids and the dispatch are hand-written: tied by the fmtcheck-* streams',
                  'the parsers: C and Python-% through the models of C11 / C12, python-brace and perl-brace through the models of C13 (their own streams); '
                  'the brace kinds are streamed both with the signature extracted from the real parser object and as raw strings',
                  'message_repr (prefix) is an input computed by calling the real function; single-string diagnostics are compared by name and prefix only',
@@ -147,6 +158,8 @@ def main():
         explanation=EXPLANATION)
 
 EXPLANATION = (
+    'TIE (2): Generated/FmtMsg.lean is regenerated from the current lib/check/msgformat/__init__.py (check_message) on every run; Props/C14MsgTie.lean proves generated_check_message_eq_model '
+    '(every back end, context, message, flags) and generated_msg_check_formats_eq_model, and restates plain_message / invalid_msgstr_error / message_tags / nocrash about the regenerated definition.  '
     'TIE: Generated/FmtArgs.lean is regenerated from the current lib/check/msgformat/{c,python,pybrace,perlbrace}.py (check_args) and lib/strformat/c.py (get_last_integer_conversion) on '
     'every run; Props/C14Tie.lean proves each regenerated function equal to the model for all inputs (generated_*_check_args_eq_model, generated_get_last_integer_conversion_eq_model, '
     'generated_check_formats_eq_model) and restates the args_tags_iff theorems about the regenerated definitions; a source change breaks a proof or the translation (coverage.tie) and starts the falsifier.  '
